@@ -672,7 +672,7 @@ def rule_rejections(facts):
                     why = "LZMA2 filter takes one property byte"
                 elif t[0] == "discr" and (pat.has_field(t, "check_method") or pat.has_arg(t, "check_method")):
                     why = "unsupported check (C18.R1b/R5)"
-                elif pat.has_call(t, "PartialEq::eq") and pat.has_field(t, "check_method"):
+                elif pat.has_call(t, "PartialEq::eq") and (pat.has_field(t, "check_method") or pat.has_arg(t, "check_method")):
                     why = "unsupported check (C18.R1b/R5)"
                 elif pat.has_call(t, "to_be_bytes") and s_ and s_[2] == ("const", 0):
                     why = "stream flags null byte (C18.R3)"
